@@ -129,9 +129,12 @@ def main(ids):
                 wall = time.time() - t
                 clauses = sorted(set(re.findall(r"^violation clause=(\S+) cause=None", p.stdout, re.M)))
                 ok = p.returncode == 1
-                st = sh("/venv/bin/python", "-m", "pytest", "-q", "-x", "-p", "no:cacheprovider", "--timeout=900", "--deselect",
-                        "tests/test_config.py::TestDefaultCodeFilter::test_excludes_site_packages", cwd=wt, env=dict(os.environ, PYTHONPATH=wt))
-                suite = "suite passes" if st.returncode == 0 else "suite FAILS (mutant visible to the existing tests)"
+                try:
+                    st = sh("/venv/bin/python", "-m", "pytest", "-q", "-x", "-p", "no:cacheprovider", "--timeout=120", "--deselect",
+                            "tests/test_config.py::TestDefaultCodeFilter::test_excludes_site_packages", cwd=wt, env=dict(os.environ, PYTHONPATH=wt), timeout=300)
+                    suite = "suite passes" if st.returncode == 0 else "suite FAILS (mutant visible to the existing tests)"
+                except subprocess.TimeoutExpired:
+                    suite = "suite HANGS (mutant visible to the existing tests)"
                 rows.append((pid, name, "DETECTED" if ok else "MISSED (exit %d)" % p.returncode, ", ".join(clauses), "%s; %.0f s" % (suite, wall)))
                 if not ok:
                     bad += 1
